@@ -21,4 +21,5 @@ CONTRACTS = [c.ident for c in (rd.PolarCoordinates(), rd.GetPhaseField(), rd.Bin
 LEMMAS = ["profile-non-increasing-in-distance", "periodic-wrap-is-roll-equivariant", "isqrt-unique-and-mode-index-bijection", "sum-of-fields-independent-of-droplet-order"]
 BOUNDED = [ContractSampling("render-on-real-grids", [rd.GetPhaseField().ident, rd.DimensionMismatch().ident],
                             "every class x width kind on 4 (quick) / 40 (thorough) seeded droplets, each rendered on 2-4 real grids "
-                            "(unit/Cartesian with mixed periodicity, polar, spherical, cylindrical), every cell checked")]
+                            "(unit/Cartesian with mixed periodicity, polar, spherical, cylindrical), every cell checked"),
+           pf.EmulsionSum()]
